@@ -18,6 +18,7 @@ R21.5  every removal from the list of pending read pipes (directly or through a 
        site) is dominated by "handleRead returned false": that is the only place where a dead worker is counted
        into the result, and where the worker's own result (CHILD_END) is added.
 """
+import re
 from .common.facts import walk, walk_parents, strip, strip_all, call_args, AnalysisBroken
 from .common import paths
 from .common.absint import pure_sig
@@ -273,9 +274,51 @@ def run(ctx):
                 '"premature end of pipe" failure count reaches the exit status, and unread findings of that worker are dropped' % n['l']),
                '%s:%s' % (pe['file'], n['l']))
 
+    r21_6(ctx)
+
     # ---- R21.4 census -----------------------------------------------------------------------------------------
     exits = [x for x in walk(hb) if x.get('k') == 'CallExpr' and x.get('fn') in ('exit', 'std::exit')]
     ctx.note('R21.4: %d std::exit() calls in ProcessExecutor::handleRead (parent side, lines %s): a worker killed between two write() calls makes '
              'the parent exit without reporting the other files; needs fault injection to demonstrate, listed not armed'
              % (len(exits), [x['l'] for x in exits]))
     ctx.counts['std::exit calls in handleRead'] = len(exits)
+
+
+def r21_6(ctx):
+    """R21.6  descriptor-keyed bookkeeping dies with the descriptor: the kernel reuses the number of a closed pipe for the next pipe(), so every local map of
+    ProcessExecutor::check that is keyed by the read descriptor (entries stored under pipes[0] when a worker is forked) must drop the entry where the pipe is
+    retired (the block that closes the descriptor and removes it from the pending list).  Otherwise a later lookup by a recycled number returns another
+    worker's data - e.g. the internal error of a crashed worker names the wrong file."""
+    F = ctx.facts
+    ctx.rule('R21.6', 'maps keyed by a pipe descriptor drop the entry when the descriptor is closed')
+    pe = F.one('ProcessExecutor::check')
+    body = F.body(pe)['body']
+    fdmaps = {}
+    for d in walk(body):
+        if d.get('k') == 'VarDecl' and re.match(r'^std::(unordered_)?map<int,', (d.get('t') or '')):
+            fdmaps[d['di']] = d
+    stored = set()
+    for x in walk(body):
+        if x.get('k') == 'CXXOperatorCallExpr' and x.get('op') == '[]' and len(x.get('c', ())) >= 3:
+            base = strip(x['c'][1])
+            if base is not None and base.get('di') in fdmaps and any(y.get('k') == 'ArraySubscriptExpr' or y.get('n') == 'pipes' for y in walk(x['c'][2])):
+                stored.add(base['di'])
+    ctx.floor('R21.6 descriptor-keyed maps filled at fork time', len(stored), 1)
+    # retire blocks: compound statements (or lambda bodies) that contain close(fd) and an erase on the pending list
+    retire_blocks = []
+    for x in walk(body):
+        if x.get('k') == 'CompoundStmt':
+            direct = x.get('c', ())
+            has_close = any(y.get('k') == 'CallExpr' and y.get('fn') == 'close' for st in direct for y in walk(st) if st.get('k') not in ('IfStmt', 'ForStmt', 'WhileStmt', 'CXXForRangeStmt'))
+            has_erase = any(y.get('k') == 'CXXMemberCallExpr' and (y.get('fn') or '').startswith('std::list<int') and (y.get('fn') or '').endswith('::erase') for st in direct for y in walk(st))
+            if has_close and has_erase:
+                retire_blocks.append(x)
+    ctx.floor('R21.6 blocks retiring a pipe', len(retire_blocks), 1)
+    for di in sorted(stored):
+        name = fdmaps[di].get('n')
+        for i, blk in enumerate(retire_blocks):
+            erased = any(y.get('k') == 'CXXMemberCallExpr' and (y.get('fn') or '').endswith('::erase') and any(z.get('di') == di for z in walk(y['c'][0])) for y in walk(blk))
+            ctx.ob('R21.6', 'fd-map:%s#%d' % (name, i), erased,
+                   ('the entry of `%s` is erased where the descriptor is closed' % name) if erased else
+                   ('`%s` is keyed by the read descriptor but its entry survives the close() at line %s: the next pipe() reuses the number, so a lookup made later for the '
+                    'old worker (e.g. the file name for "Child process crashed") returns the new worker\'s entry' % (name, blk['l'])), '%s:%s' % (pe['file'], blk['l']))
